@@ -525,6 +525,11 @@ def directed_cases(tier):
              {'op': 'add', 'gap': 0.2}, {'op': 'start', 'gap': 0.2}, {'op': 'emit', 'seed': 5, 'extreme': False, 'gap': 0.2}, {'op': 'emit', 'seed': 6, 'extreme': True, 'gap': 0.2},
              {'op': 'delete', 'gap': 0.2}, {'op': 'add', 'gap': 0.2}, {'op': 'start', 'gap': 0.2}, {'op': 'emit', 'seed': 7, 'extreme': False, 'gap': 0.2}]
     yield dict(base, vars=[{'kind': 'toc', 'idx': i, 'fetch': [None, 8, 7, 1][i % 4]} for i in range(5)], history=hist2)
+    # payloads of exactly 25, 26 (the limit) and 24 bytes made of 1-, 2- and 4-byte variables, started and fed with data
+    short = [{'op': 'start', 'gap': 0.2}, {'op': 'emit', 'seed': 3, 'extreme': False, 'gap': 0.2}, {'op': 'emit', 'seed': 4, 'extreme': True, 'gap': 0.2}]
+    for fetches in ([7] * 6 + [2], [7] * 6 + [1, 1], [2] * 13, [1] * 26, [7] * 6 + [1], [7] * 6, [3] * 5 + [6, 5], [8] * 13, [1] * 25, [5] * 12 + [4, 1]):
+        n = len(fetches)
+        yield dict(base, toc_types=[1] * 30, readd=False, vars=[{'kind': 'toc', 'idx': i, 'fetch': f} for i, f in enumerate(fetches)], history=short)
 
 
 def single_preemption_cases(tier):
